@@ -86,6 +86,13 @@ func clientReload(w *World) {
 		m.policy[n] = w.KnobPick("policy."+n, 0, 0, 0, 0, 1, 2, 3, 4)
 		m.errLeft[n] = r.Range(1, 2)
 	}
+	// the udp proxy's backend may be given by a name that does not resolve for the time being: the server accepts the
+	// registration, the client then fails to start the proxy locally. Such a proxy is not running, so it must not stay
+	// registered; it is tried again later and comes up once the name resolves.
+	localFail := w.KnobBool("local_start_failure", 30)
+	if localFail {
+		m.policy["c"] = 0
+	}
 	// backend
 	ln, _ := w.Net.Listen("tcp", "127.0.0.1:9400")
 	var bmu sync.Mutex
@@ -105,6 +112,9 @@ func clientReload(w *World) {
 	mkProxy := func(name string, variant int) map[string]any {
 		typ := []string{"tcp", "tcp", "udp", "stcp", "http"}[int(name[0]-'a')%5]
 		p := map[string]any{"name": name, "type": typ, "localIP": "127.0.0.1", "localPort": 9400}
+		if name == "c" && localFail {
+			p["localIP"] = "backend.sim.test"
+		}
 		switch typ {
 		case "tcp", "udp":
 			p["remotePort"] = 21000 + int(name[0]-'a') + 100*variant
@@ -208,6 +218,9 @@ func clientReload(w *World) {
 		m.mu.Lock()
 		untouched := map[string][2]int{}
 		for n, v := range cur {
+			if localFail && n == "c" {
+				continue // registered for a moment at most, never running while its backend name does not resolve
+			}
 			if nv, ok := next[n]; ok && nv == v && m.reg[n] && (m.policy[n] == 0) {
 				untouched[n] = [2]int{len(m.newProxy[n]), len(m.closeProx[n])}
 			}
@@ -235,6 +248,20 @@ func clientReload(w *World) {
 		}
 		m.mu.Unlock()
 		cur = next
+	}
+	if localFail {
+		time.Sleep(8 * time.Second)
+		w.Check("C19.not-running-not-registered")
+		m.mu.Lock()
+		if _, ok := cur["c"]; ok && len(m.newProxy["c"]) > 0 {
+			w.Probe("client.local_start_failure")
+			if last := m.newProxy["c"][len(m.newProxy["c"])-1]; w.Net.Now()-last > 5*time.Second && m.reg["c"] {
+				viol("converge", "registered-although-local-start-failed", "udp proxy c cannot start at the client (its local address does not resolve) but %v after its registration was accepted it is still registered at the server; NewProxy at %v CloseProxy at %v",
+					w.Net.Now()-last, m.newProxy["c"], m.closeProx["c"])
+			}
+		}
+		m.mu.Unlock()
+		simnet.Hosts["backend.sim.test"] = "127.0.0.1"
 	}
 	// convergence: bounded by the wrapper's wait (20 s) / retry (30 s) / check (3 s) intervals, twice over
 	time.Sleep(110 * time.Second)
